@@ -71,17 +71,15 @@ func runC14(r *Run) {
 	r.argCheck("C14.fund", fund, fnPropGet, 0, "the active store", propStore(active), "a proposal outside the active store can be funded")
 	r.argCheck("C14.fund", fund, fnPropGet, 1, "msg.ProposalId", msgF(p, "ProposalId"), "another proposal than the named one is funded")
 	// move to voting behind total + contribution >= goal, total read from the total record
-	goal := cmpG("total record + contribution >= FundingGoal", func(v ssa.Value) bool {
-		c, ok := v.(*ssa.Call)
-		if !ok || calleeName(c) != "(*math/big.Int).Cmp" {
-			return false
-		}
-		lhs, rhs := c.Call.Args[0], c.Call.Args[1]
-		fromTotal := derivesFrom(lhs, func(y ssa.Value) bool { cc, ok := y.(*ssa.Call); return ok && calleeName(cc) == fnCurFunds })
-		fromMsg := derivesFrom(lhs, func(y ssa.Value) bool { return msgF(p, "FundValue.Value")(y) || msgF(p, "FundValue")(y) })
-		toGoal := derivesFrom(rhs, func(y ssa.Value) bool { return prop("FundingGoal")(y) })
-		return fromTotal && fromMsg && toGoal
-	}, token.GEQ, constIs(0))
+	isCurFunds := func(y ssa.Value) bool { cc, ok := y.(*ssa.Call); return ok && calleeName(cc) == fnCurFunds }
+	goalV := func(v ssa.Value) bool {
+		return derivesFrom(v, func(y ssa.Value) bool { return prop("FundingGoal")(y) })
+	}
+	goal := bigCmpG("total record + contribution >= FundingGoal", func(v ssa.Value) bool {
+		fromTotal := derivesFrom(v, isCurFunds)
+		fromMsg := derivesFrom(v, func(y ssa.Value) bool { return msgF(p, "FundValue.Value")(y) || msgF(p, "FundValue")(y) })
+		return fromTotal && fromMsg
+	}, token.GEQ, goalV)
 	votingStore := func(fn *ssa.Function, ins ssa.Instruction) bool {
 		st, ok := ins.(*ssa.Store)
 		if !ok {
@@ -185,14 +183,7 @@ func runC14(r *Run) {
 	oc := func(name string) GuardSpec {
 		return cmpG("outcome == "+name, prop("Outcome"), token.EQL, constIs(govConst(p, name)))
 	}
-	missed := cmpG("recorded total < goal", func(v ssa.Value) bool {
-		c, ok := v.(*ssa.Call)
-		if !ok || calleeName(c) != "(*math/big.Int).Cmp" {
-			return false
-		}
-		return derivesFrom(c.Call.Args[0], func(y ssa.Value) bool { cc, ok := y.(*ssa.Call); return ok && calleeName(cc) == fnCurFunds }) &&
-			derivesFrom(c.Call.Args[1], func(y ssa.Value) bool { return prop("FundingGoal")(y) })
-	}, token.LSS, constIs(0))
+	missed := bigCmpG("recorded total < goal", func(v ssa.Value) bool { return derivesFrom(v, isCurFunds) && !goalV(v) }, token.LSS, goalV)
 	late := cmpG("height > FundingDeadline", heightV, token.GTR, prop("FundingDeadline"))
 	r.guardOb("C14.withdraw", wd, "refund", wSinks, &AnyGuard{Name: "cancelled / insufficient funds / goal missed", Alts: []GuardSpec{oc("ProposalOutcomeCancelled"), oc("ProposalOutcomeInsufficientFunds"), missed}},
 		"funds of a proposal that met its goal can be withdrawn (they must be distributed at finalisation)")
